@@ -89,6 +89,20 @@ Section Tail.
         rewrite (terminator_run _ tail _ H). reflexivity.
     Qed.
 
+    (* C04, "never sets an option, selects a command, or triggers unknown-option handling": the
+       option store, selected command, upper levels and unknown list after the whole argument
+       vector are those reached just before the `--`, whatever follows it; the `--` itself is
+       not in remaining *)
+    Theorem terminator_store_frozen root st0 pre tail st sh :
+      run (init root st0) pre = Ok st -> at_head st DD sh ->
+      exists fin, walk root st0 (pre ++ DD :: tail) = Ok fin /\
+        store fin = store sh /\ cur fin = cur sh /\ up fin = up sh /\ unk fin = unk sh /\
+        text fin = text sh ++ tail.
+    Proof.
+      intros R H. destruct (terminator_walk root st0 pre tail st sh R H) as [_ W2].
+      eexists. split; [exact W2|]. unfold add_text, set_ph. cbn. auto.
+    Qed.
+
     Lemma label_term_at_head st t : label_of st t = LTerm -> t = DD /\ exists sh, at_head st t sh.
     Proof.
       intros L. assert (HT : ph st <> PTail).
